@@ -30,7 +30,15 @@ estimation results (real bioResults from BIOGEME.estimate) attached between
 calls; every call judged for the observation actually handed over and the
 parameter values carried at that moment, and compared with a model object
 without history; row objects kept across an estimation are compared with
-twin objects of identical content.
+twin objects of identical content; (h) frame index styles of the data set
+(default, sorted frame, shuffled frame, Database.remove with gaps,
+extract_rows in another order, offset, string labels, duplicated labels from
+pd.concat) in every family that calls forecast / validate_forecast /
+mdcev_row_split: entry i is the i-th row by position - rows handed to the
+per-draw method, Database.mdcev_row_split entries, agreement of forecast entry
+(i, d) with forecast_bisection_one_draw on the i-th observation; Mdcev.
+validate_forecast runs, hands rows over by position and does not warn about
+different utilities of solutions that have the same utility.
 """
 from __future__ import annotations
 
@@ -52,7 +60,9 @@ RULE = (
     'from 6 labelling schemes, each case repeated under a random label bijection and insertion order; a stratified '
     'part enumerates variant x outside x labelling; a history family (variant x outside x 3 call sequences over data '
     'sets A/B/C, A permuted and attached estimation results) re-uses one model object over 3-4 data sets with 2-3 '
-    'observations whose baseline utilities all depend on the data. A case is non-trivial when at least one forecast of it was judged '
+    'observations whose baseline utilities all depend on the data; three quarters of the random and two thirds of the '
+    'stratified cases, and every history step, put the observations in a Database whose frame index has one of 8 '
+    'styles obtained through public routes (observation i = i-th row by position). A case is non-trivial when at least one forecast of it was judged '
     'by the post-condition and at least one piece comparison was made; distinct = hash of the specification'
 )
 ASSUMPTIONS = [
@@ -600,7 +610,12 @@ def check_entries_against_direct(cx, spec, frames, direct, entries, tag, which):
             worst = max(abs(float(frames[r][l].iloc[d]) - float(res[l])) for l in spec['labels'])
         except BaseException:  # noqa
             worst = math.inf
-        if not worst <= allow:
+        # the per-draw call ran with its own (default, absolute) tolerances: its own budget miss is part of the distance
+        try:
+            own = 4 * abs(sum(float(v) for v in res.values()) - B)
+        except BaseException:  # noqa
+            own = 0.0
+        if not worst <= allow + own:
             cx.viol('forecast-entry-differs-from-per-draw-forecast-of-the-observation-at-that-position',
                     f'{which}: entry ({r}, draw {d}) of forecast = { {l: float(frames[r][l].iloc[d]) for l in spec["labels"]} } but '
                     f'forecast_bisection_one_draw on the {r}-th observation with the same draw = { {l: float(res[l]) for l in spec["labels"]} }',
@@ -639,8 +654,13 @@ def check_validate_forecast(cx, spec, model, db, eps, tag, which):
         ok = True
     except BaseException as e:  # noqa
         ok = False
-        cx.viol(f'validate_forecast-raises-{type(e).__name__}', f'{which}: Mdcev.validate_forecast raised {type(e).__name__}: {e} '
-                f'(index_to_key {itk}, outside good {spec["outside"]})', otag, index_to_key=itk)
+        if otag != tag:  # the site is in the base class: one mechanism, no variant in its name
+            cx.viol(f'validate_forecast-raises-{type(e).__name__}-position-order-differs-from-sorted-labels',
+                    f'{which}: Mdcev.validate_forecast raised {type(e).__name__}: {e} (index_to_key {itk}, outside good {spec["outside"]})',
+                    generic=True, index_to_key=itk)
+        else:
+            cx.viol(f'validate_forecast-raises-{type(e).__name__}', f'{which}: Mdcev.validate_forecast raised {type(e).__name__}: {e} '
+                    f'(index_to_key {itk}, outside good {spec["outside"]})', tag, index_to_key=itk)
     finally:
         lg.removeHandler(h)
         lg.setLevel(old_level)
@@ -683,9 +703,13 @@ def check_validate_forecast(cx, spec, model, db, eps, tag, which):
             except BaseException:  # noqa
                 continue
         if same == R:
-            cx.viol('validate_forecast-warns-about-different-utilities-of-solutions-with-equal-utility',
-                    f'{which}: {spurious[0][:200]} -- while the two solutions have the same total utility for every observation '
-                    f'(index_to_key {itk})', otag, index_to_key=itk)
+            msg = (f'{which}: {spurious[0][:200]} -- while the two solutions have the same total utility for every observation '
+                   f'(index_to_key {itk})')
+            if otag != tag:
+                cx.viol('validate_forecast-warns-about-different-utilities-of-solutions-with-equal-utility-position-order-differs-from-sorted-labels',
+                        msg, generic=True, index_to_key=itk)
+            else:
+                cx.viol('validate_forecast-warns-about-different-utilities-of-solutions-with-equal-utility', msg, tag, index_to_key=itk)
 
 
 def check_library_kkt(cx, spec, model, tag, which, row_db, eps_vec, got, goods):
